@@ -83,6 +83,7 @@ def _ptype(s):
 def _looks_tuple(s):
     # "(int)" as a callable's return is a parenthesised type; "((int, int))" would be a tuple
     depth = 0
+    angle = 0
     for ch in s:
         if ch == '(':
             depth += 1
@@ -90,7 +91,11 @@ def _looks_tuple(s):
             depth -= 1
             if depth == 0:
                 break
-        elif ch == ',' and depth == 1:
+        elif ch == '<':
+            angle += 1
+        elif ch == '>' and angle:
+            angle -= 1
+        elif ch == ',' and depth == 1 and angle == 0:
             return True
     return False
 
